@@ -65,7 +65,7 @@ Definition spec_snippet (s : sstate) (sn : snip) : sstate * obs :=
   | SnClass c z => (s_def (GCls c) (VClass z) s, sobs [] OOk [])
   | SnUse c =>
       match gget (GCls c) (s_globals s) with
-      | Some (VClass z) => (s, sobs [show_Z z] OOk [])
+      | Some (VClass z) => (s, sobs [class_s c; show_Z z; class_s c] OOk [])
       | _ => (s, sobs [] (OErr KName (name_error (cname_s c))) [])
       end
   | SnSyntax _ => (s, sobs [] (OErr KCompile syntax_msg) [])     (* nothing of the snippet runs *)
